@@ -26,6 +26,8 @@ func crashHistories(thorough bool) [][]string {
 		{opAdd0, opRm},
 		{opAdd0, opAdd1, opRm, opAdd0},
 		{opAdd0, opAdd1, opRm2},
+		// field dimension: the incoming records carry a GroupHeight of their own
+		{opAdd0GhNext, opAdd1GhNext, opRm, opAdd0GhPrev},
 	}
 	if thorough {
 		hs = append(hs, []string{opAdd1, opAdd0, opAdd1, opRm2, opAdd0, opRm}, []string{opAdd0, opRm, opAdd1, opRm, opAdd0})
@@ -70,6 +72,9 @@ func setGenesisList() {
 // pureStep advances the model without touching the chain (crash histories only use
 // operations whose acceptance is not in question: valid additions and removals).
 func pureStep(m *refGroups, op string) {
+	if b, v := splitVariant(op); v != "" && (b == opAdd0 || b == opAdd1) {
+		op = b // field variants build the same list element as the plain addition
+	}
 	switch op {
 	case opAdd0, opAdd1:
 		g := m.build(op)
